@@ -134,8 +134,8 @@ theorem contigChars_ok (c : String) (hc : WfContig c) :
   · exact .inl (.inr h)
 
 theorem parseVcfRecord_recLine (c : String) (hc : WfContig c) (p : Nat) (hp : 1 ≤ p) (hp64 : p < 2 ^ 64)
-    (gts : List GtRes) (hne : gts ≠ []) (hg : ∀ g ∈ gts, WfGt g) :
-    parseVcfRecord gts.length (recLine c p gts) = some (.gts c p gts) := by
+    (gts : List GtRes) (hne : gts ≠ []) (hg : ∀ g ∈ gts, WfGt g) (prev : Nat) :
+    parseVcfRecord gts.length prev (recLine c p gts) = some (.gts c p gts) := by
   have hs : (gts.map renderGt).isEmpty = false := by
     cases gts with
     | nil => exact absurd rfl hne
@@ -144,7 +144,7 @@ theorem parseVcfRecord_recLine (c : String) (hc : WfContig c) (p : Nat) (hp : 1 
     simp only [beq_eq_false_iff_ne, ne_eq]; exact hc.1
   have hb1 : isBases [65] = true := by decide
   have hb2 : splitBytes 44 [67] = [[67]] := by decide
-  have hb3 : isBases [67] = true := by decide
+  have hb3 : isAltAllele [67] = true := by decide
   have hk0 : splitBytes 58 [71, 84] = [[71, 84]] := by decide
   have hk1 : formatKeyOk [71, 84] = true := by decide
   have hkeys : ([[71, 84]] : List (List Nat)).idxOf? (strBytes "GT") = some 0 := by decide
@@ -193,14 +193,14 @@ def recLines (recs : List (String × Nat × List GtRes)) : List (List Nat) := re
 
 theorem parseVcfRecords_recLines (recs : List (String × Nat × List GtRes))
     (n : Nat) (hr : ∀ r ∈ recs, WfContig r.1 ∧ 1 ≤ r.2.1 ∧ r.2.2 ≠ [] ∧ (∀ g ∈ r.2.2, WfGt g) ∧ r.2.2.length = n)
-    (hp64 : ∀ r ∈ recs, r.2.1 < 2 ^ 64) :
-    parseVcfRecords n (recLines recs) = some (toRecs recs) := by
-  induction recs with
+    (hp64 : ∀ r ∈ recs, r.2.1 < 2 ^ 64) (prev : Nat) :
+    parseVcfRecords n prev (recLines recs) = some (toRecs recs) := by
+  induction recs generalizing prev with
   | nil => rfl
   | cons r rs ih =>
     obtain ⟨h1, h2, h3, h4, h5⟩ := hr r (by simp)
-    have ih' := ih (fun r' hr' => hr r' (by simp [hr'])) (fun r' hr' => hp64 r' (by simp [hr']))
-    have hrec := parseVcfRecord_recLine r.1 h1 r.2.1 h2 (hp64 r (by simp)) r.2.2 h3 h4
+    have ih' := ih (fun r' hr' => hr r' (by simp [hr'])) (fun r' hr' => hp64 r' (by simp [hr'])) r.2.1
+    have hrec := parseVcfRecord_recLine r.1 h1 r.2.1 h2 (hp64 r (by simp)) r.2.2 h3 h4 prev
     rw [h5] at hrec
     simp only [recLines, List.map_cons] at ih' ⊢
     unfold parseVcfRecords
@@ -246,6 +246,6 @@ theorem vcfDecode_vcfEncode (cols contigs : List String) (recs : List (String ×
     rw [vcfEncode_eq_lines, this]
   unfold vcfDecode
   rw [h13, hsplit, parseVcfHeaderLines_headerLines cols contigs h.cols_ne h.cols_wf h.cols_nodup hcw h.contigs_nodup]
-  simp [parseVcfRecords_recLines recs cols.length hr h.pos_fits]
+  simp [parseVcfRecords_recLines recs cols.length hr h.pos_fits 1]
 
 end Sfs
